@@ -37,6 +37,8 @@ ASSUMPTIONS = [
     "fee part: gas and fee values are bounded by TLC's 32-bit integers (very large gas = 4*10^8, above the block gas limit); a single fee denomination per transaction (the priced one or another one); one minimum gas price denomination",
     "inputs part: messages are built at wire level from the real descriptors (dynamic protobuf), decoded by the application's real codec, validated by the real ValidateBasic; those that pass are offered to the real CheckTx in a signed transaction (claims wrapped in MsgClaim, legacy proposal contents in gov v1beta1 MsgSubmitProposal); on this tree MsgClaim/MsgConfirm never pass ValidateBasic after wire decoding (their Any is not unpacked), so claims reach the ante handler only as rejected wrappers",
     "inputs part: precompile call data is sent to the real precompile address in a real signed EVM transaction executed by the EVM keeper on a discarded branch of a one-validator chain; a panic is recovered only to be reported",
+    "inputs part: the transaction envelope (cosmos.tx.v1beta1 TxBody, AuthInfo, TxRaw - what fx-core's ante handler reads) is enumerated with the same value classes around a valid signed bank send",
+    "inputs part: outcome 'panic' = a panic escaping an fx-core function (ValidateBasic, parsers, precompile through the EVM) or a panic the application recovered (ErrPanic from CheckTx) whose original raise site is in the repository's source (attributed from the stack the application logs); a panic raised inside a dependency (cosmos-sdk) and converted into an error by fx-core's ante handler (its deferred Recover) counts as a rejection and is listed under recovered_dependency_panics",
     "inputs part: message handlers (execution after check-tx) are out of scope of this property",
     "trusted: TLC, protobuf-go dynamicpb encoding, go-ethereum ABI packer for the well-formed parts of call data",
 ]
@@ -115,7 +117,7 @@ def fee_generate(work, cfg, ev):
     over = {"ExemptSets": "ExemptSetsDef", "Prices": cfg["Prices"]}
     mc = work.path("fee-mc.cfg")
     vlib.write_cfg(mc, spec="Spec", consts=consts, overrides=over, invariants=FEE_FORMULAS + ["C20_Sane"])
-    r = vlib.run_tlc(work, "FeeMC.tla", mc, work.path("fee-mc.out"), workers=4, timeout=900)
+    r = vlib.run_tlc(work, "FeeMC.tla", mc, work.path("fee-mc.out"), workers=2, timeout=1500)
     if r["violated"] or r["error"] or r["rc"] != 0:
         raise Infra("Fee.tla violates its own formulas (model error): %s\n%s" % (r["violated"] or r["error"], r["tail"][-1500:]))
     log("TLC model check Fee: %d distinct states, %.0fs" % (r["distinct"], r["wall"]))
@@ -123,7 +125,7 @@ def fee_generate(work, cfg, ev):
     ev["transitions"] += r["generated"]
     gen = work.path("fee-gen.cfg")
     vlib.write_cfg(gen, init="Init", next_="Next", consts=consts, overrides=over, action_constraint="CaseDump")
-    r = vlib.run_tlc(work, "FeeMC.tla", gen, work.path("fee-gen.out"), workers=1, timeout=900)
+    r = vlib.run_tlc(work, "FeeMC.tla", gen, work.path("fee-gen.out"), workers=1, timeout=1500)
     if r["error"] or r["rc"] != 0:
         raise Infra("Fee generation failed: %s\n%s" % (r["error"], r["tail"][-1500:]))
     cases = work.path("fee-cases.ndjson")
@@ -267,22 +269,23 @@ def inputs_run(work, binary, cases, cfg):
     _run_shards(work, binary, "TestInputs", ns,
                 lambda i: dict(VERIF_CASES=cases, VERIF_OUT=work.path("inputs-out-%d.ndjson" % i), VERIF_STATS=work.path("inputs-stats-%d.json" % i),
                                VERIF_SHARD=i, VERIF_SHARDS=ns, VERIF_SAMPLE_EVERY=cfg["sample_every"]), "inputs")
-    types, panics, executed = {}, {}, 0
+    types, panics, recovered, executed = {}, {}, {}, 0
     for i in range(ns):
         d = json.load(open(work.path("inputs-stats-%d.json" % i)))
         executed += d["executed"]
         for k, v in d["types"].items():
-            t = types.setdefault(k, dict(Cases=0, Accept=0, Reject=0, Panic=0, PassedVB=0))
+            t = types.setdefault(k, dict(Cases=0, Accept=0, Reject=0, Panic=0, PassedVB=0, RecoveredDep=0))
             for x in t:
                 t[x] += v[x]
-        for k, v in d["panics"].items():
-            p = panics.get(k)
-            if p is None or v["nonvalid_fields"] < p["nonvalid_fields"]:
-                v["count"] += p["count"] if p else 0
-                panics[k] = v
-            else:
-                p["count"] += v["count"]
-    return types, panics, executed, [work.path("inputs-out-%d.ndjson" % i) for i in range(ns)]
+        for src, book in ((d["panics"], panics), (d.get("recovered_dependency_panics") or {}, recovered)):
+            for k, v in src.items():
+                p = book.get(k)
+                if p is None or v["nonvalid_fields"] < p["nonvalid_fields"]:
+                    v["count"] += p["count"] if p else 0
+                    book[k] = v
+                else:
+                    p["count"] += v["count"]
+    return types, panics, recovered, executed, [work.path("inputs-out-%d.ndjson" % i) for i in range(ns)]
 
 
 def inputs_evaluate(work, outs, mode, extra_first=()):
@@ -381,18 +384,20 @@ def check(work, args):
 
     _phase(work, "fee formulas evaluated")
     in_cases, n_in = gen["res"]
-    types, panics, executed, iouts = inputs_run(work, binary, in_cases, T["inputs"])
+    types, panics, recovered, executed, iouts = inputs_run(work, binary, in_cases, T["inputs"])
     if executed != n_in:
         raise Infra("inputs: %d cases generated but %d executed" % (n_in, executed))
     groups = {}
     for k, v in types.items():
-        g = groups.setdefault(k.split(":")[0], dict(types=0, cases=0, accept=0, reject=0, panic=0, passed_stateless_validation=0))
+        g = groups.setdefault(k.split(":")[0], dict(types=0, cases=0, accept=0, reject=0, panic=0, passed_stateless_validation=0,
+                                                     rejected_by_recovered_dependency_panic=0))
         g["types"] += 1
         g["cases"] += v["Cases"]
         g["accept"] += v["Accept"]
         g["reject"] += v["Reject"]
         g["panic"] += v["Panic"]
         g["passed_stateless_validation"] += v["PassedVB"]
+        g["rejected_by_recovered_dependency_panic"] += v["RecoveredDep"]
     log("inputs: %d cases on %d types: %s" % (executed, len(types), json.dumps(groups, sort_keys=True)))
     never = sorted(e["name"] for e in table if e["name"] not in types)
     if never:
@@ -413,12 +418,17 @@ def check(work, args):
     for p in plist:
         log("  PANIC %s at %s [%s]: %s  smallest input: baseline with %s (%d cases)" % (p["type"], p["where"], p["stage"], p["panic"][:80], p["smallest_input"], p["occurrences"]))
 
+    rlist = [dict(type=json.loads(json.dumps(p["case"]))["type"], where=p["real"].get("where", ""), message=p["real"].get("detail", ""),
+                  smallest_input=p["mutated"], occurrences=p["count"]) for _, p in sorted(recovered.items())]
+    for r in rlist:
+        log("  note: dependency panic recovered by the application and returned as an error (not a C20 violation): %s %s, smallest input %s (%d cases)"
+            % (r["type"], r["where"], r["smallest_input"], r["occurrences"]))
     ev["traces_validated_against_impl"] = n_fprop + n_iprop
     ev["samples"] = fsamples[:3] + isamples[:3]
     ev["fee"] = dict(cases=n_fee, node_configurations=cfgs, outcomes=counts, disagreements_with_generated_verdict=n_fdis,
                      real_outcomes_evaluated_by_tlc=n_fprop, consts=fconsts, first_disagreement=first_dis)
     ev["inputs"] = dict(mode=T["inputs"]["Mode"], types=len(table), cases=executed, by_group=groups, real_outcomes_evaluated_by_tlc=n_iprop,
-                        distinct_panics=plist, baseline=dump["baseline"],
+                        distinct_panics=plist, recovered_dependency_panics=rlist, baseline=dump["baseline"],
                         per_type={k: v for k, v in sorted(types.items())})
     ev["exhaustive"] = True
     ev["rule"] = ("TLC enumerates every case of Fee.tla (message lists 0..%d over three types, gas at every allowance boundary, fees around the required fee, "
